@@ -202,9 +202,6 @@ func C18_PrefixDB() {
 	// raw keys outside the namespace: any bytes that do not start with the prefix (below, above,
 	// the incremented prefix, a proper prefix of the prefix, ...) and the prefix itself
 	nOut := 1
-	if vTier() == "thorough" {
-		nOut = 2
-	}
 	var outK, outV [][]byte
 	for i := 0; i < nOut; i++ {
 		r := vBytes("raw", 1+vChoice("rawlen", 3))
